@@ -319,7 +319,10 @@ fn cli_case(cli: &Path, backend: Backend, files: &[(String, String)], work: &Pat
     for (i, (name, text)) in files.iter().enumerate() {
         let sub = ["src", "src/nested", "src/nested/deeper"][i % 3];
         let ext = if i % 2 == 0 { "asn" } else { "asn1" };
-        let p = root.join(sub).join(format!("{name}.{ext}"));
+        // every third directory run: the first two files have the same name in different
+        // sub-directories (`src/shared.asn`, `src/nested/shared.asn`)
+        let shared = variant % 2 == 0 && variant % 3 == 0 && i < 2 && files.len() >= 2;
+        let p = if shared { root.join(sub).join("shared.asn") } else { root.join(sub).join(format!("{name}.{ext}")) };
         std::fs::write(&p, text).ok()?;
         paths.push(p);
     }
@@ -360,7 +363,7 @@ fn cli_case(cli: &Path, backend: Backend, files: &[(String, String)], work: &Pat
         for line in stderr.lines() {
             if let Some(p) = line.find("Found ASN1 module ") {
                 let fname = line[p + "Found ASN1 module ".len()..].trim();
-                match paths.iter().find(|x| x.file_name().map_or(false, |f| f.to_string_lossy() == fname)) {
+                match paths.iter().find(|x| x.file_name().map_or(false, |f| f.to_string_lossy() == fname) && !v.contains(*x)) {
                     Some(x) => v.push(x.clone()),
                     None => return Some(("cli-search", format!("the CLI picked up `{fname}`, which is not one of the .asn/.asn1 sources"))),
                 }
@@ -373,7 +376,25 @@ fn cli_case(cli: &Path, backend: Backend, files: &[(String, String)], work: &Pat
     } else {
         paths.clone()
     };
-    let exp = expected(backend, &Sources::PathIter(ordered));
+    // (two files of the same name: the log does not say which was found first; the other order
+    // is tried when the first does not give the delivered text)
+    let same_named: Vec<usize> = (0..ordered.len()).filter(|i| ordered[*i].file_name().map_or(false, |f| f == "shared.asn")).collect();
+    let mut exp = expected(backend, &Sources::PathIter(ordered.clone()));
+    if same_named.len() == 2 {
+        let delivered = match out_kind {
+            0 => std::fs::read_to_string(&out_file).ok(),
+            1 => Some(String::from_utf8_lossy(&o.stdout).to_string()),
+            3 => std::fs::read_to_string(run_dir.join(format!("generated{}", backend.ext()))).ok(),
+            _ => None,
+        };
+        if let (Ok((text, _)), Some(d)) = (&exp, &delivered) {
+            if text != d {
+                let mut other = ordered.clone();
+                other.swap(same_named[0], same_named[1]);
+                exp = expected(backend, &Sources::PathIter(other));
+            }
+        }
+    }
     let ok = o.status.code() == Some(0);
     match (&exp, ok) {
         (Ok(_), false) => return Some(("cli-status", format!("library compiles these sources but the CLI exit status is {:?}: {}", o.status.code(), stderr.chars().take(300).collect::<String>()))),
